@@ -67,7 +67,9 @@ fn parse_type(t: &str) -> Option<(bool, bool, String)> {
         Some(r) => (true, r),
         None => (false, rest),
     };
-    if rest.is_empty() || rest.contains(['<', '>', ' ', ',']) {
+    // an empty type name is what the renderer emits for an element whose name has no alphanumeric character
+    // (`<__/>`): not a legal Rust item, but that is C04's subject, not claimed here; the observation is name-free
+    if rest.contains(['<', '>', ' ', ',']) {
         return None;
     }
     Some((opt, vec, rest.to_string()))
